@@ -46,17 +46,21 @@ func (lc *layoutCalc) of(t *Type, std140, rowMajor bool) *Layout {
 		return l
 	}
 	l := &Layout{Type: t}
+	w := 4 // N, the size of the scalar in basic machine units (2 for the 16-bit float types)
+	if t.half {
+		w = 2
+	}
 	switch t.Kind {
 	case KBool, KInt, KUint, KFloat:
 		// rule 1: a scalar consuming N basic machine units has base alignment N
-		l.Size, l.Align = 4, 4
+		l.Size, l.Align = w, w
 	case KVec:
 		// rules 2 and 3: 2N for two components, 4N for three or four
-		l.Size = 4 * t.N
+		l.Size = w * t.N
 		if t.N == 2 {
-			l.Align = 8
+			l.Align = 2 * w
 		} else {
-			l.Align = 16
+			l.Align = 4 * w
 		}
 	case KMat:
 		// rules 5 and 7: a column-major CxR matrix is stored as an array of C column vectors with R
@@ -65,9 +69,9 @@ func (lc *layoutCalc) of(t *Type, std140, rowMajor bool) *Layout {
 		if rowMajor {
 			vecN, count = t.Cols, t.N
 		}
-		a := 16
+		a := 4 * w
 		if vecN == 2 {
-			a = 8
+			a = 2 * w
 		}
 		if std140 {
 			a = roundUp(a, 16)
